@@ -315,8 +315,90 @@ func c07Run(c *Ctx) {
 	}
 	Flags{}.Apply()
 
+	// (ix) the first bytes of the input: every 2-byte prefix in front of a 3-line stream, through the stream entry
+	// points (reader, plain file) in-process, and a selection through the CLI.  Content sniffing (compression
+	// signatures, byte-order marks) looks at exactly these bytes.
+	c07FirstBytes(c)
+
 	// (v),(iv) through the CLI: streams with a bad line first / middle / last; deep ladders; long lines
 	c07CLI(c)
+}
+
+func c07FirstBytes(c *Ctx) {
+	good1, good2 := c06Alphabet()[0].Text, c06Alphabet()[2].Text
+	Flags{}.Apply()
+	s1, ok1, _ := redactLine(good1)
+	s2, ok2, _ := redactLine(good2)
+	if !ok1 || !ok2 {
+		return
+	}
+	want := s1 + "\n" + s2 + "\n"
+	tail := " junk that is not json\n" + good1 + "\n" + good2 + "\n"
+	judge := func(out string, err error, pv any, via string, b0, b1 int) {
+		c.Eval(1)
+		rep := map[string]any{"kind": "first-bytes", "bytes": fmt.Sprintf("%02x %02x", b0, b1), "via": via}
+		switch {
+		case pv != nil:
+			c.Violate("first-bytes:panic", fmt.Sprintf("an input that starts with the bytes %02x %02x (then text that is not JSON, then two ordinary lines) through %s: panic %v", b0, b1, via, pv), int64(b0*256+b1), rep, nil)
+		case err != nil:
+			c.Violate("first-bytes:run-aborted", fmt.Sprintf("an input that starts with the bytes %02x %02x (then text that is not JSON, then two ordinary lines) through %s: the run stops with %v and the ordinary lines are lost", b0, b1, via, err), int64(b0*256+b1), rep, nil)
+		case !strings.HasSuffix(out, want) || strings.Count(out, "\n") > 3:
+			c.Violate("first-bytes:neighbours", fmt.Sprintf("an input that starts with the bytes %02x %02x through %s: the two ordinary lines after the first line do not come out as on their own (%d output lines)", b0, b1, via, strings.Count(out, "\n")), int64(b0*256+b1), rep, nil)
+		default:
+			c.Outcome("first-bytes-harmless")
+		}
+	}
+	var no int64
+	for b0 := 0; b0 < 256; b0++ {
+		for b1 := 0; b1 < 256; b1++ {
+			no++
+			if !c.Mine(no) {
+				continue
+			}
+			text := string([]byte{byte(b0), byte(b1)}) + tail
+			for _, ch := range []string{"reader", "file"} {
+				out, err, pv := c06RunInproc(text, 3, ch, "nobar")
+				judge(out, err, pv, ch+" (in-process)", b0, b1)
+			}
+			c.Distinct(fmt.Sprintf("first-bytes|%02x%02x", b0, b1))
+		}
+	}
+	// through the CLI: known signatures and every first byte with three second bytes, as a file and on stdin
+	dir := freshDir(c.Scratch, "first07")
+	sigs := [][]byte{{0x1f, 0x8b}, {0x1f, 0x8b, 0x08}, {0x1f, 0x9d}, {0x28, 0xb5, 0x2f, 0xfd}, {'B', 'Z', 'h', '9'}, {0xfd, '7', 'z', 'X', 'Z', 0}, {'P', 'K', 3, 4}, {0x04, 0x22, 0x4d, 0x18}, {0xef, 0xbb, 0xbf}, {0xff, 0xfe}, {0xfe, 0xff}, {0x78, 0x9c}, {0x5d, 0, 0}, {'#', '!'}, {0, 0}}
+	for b0 := 0; b0 < 256; b0++ {
+		for _, b1 := range []byte{0x8b, 0x00, '{'} {
+			sigs = append(sigs, []byte{byte(b0), b1})
+		}
+	}
+	for si, sg := range sigs {
+		if !c.Mine(int64(si)) {
+			continue
+		}
+		text := string(sg) + tail
+		p := filepath.Join(dir, "first.log")
+		os.WriteFile(p, []byte(text), 0o644)
+		for _, via := range []string{"file", "stdin"} {
+			run := CLIRun{Bin: c.CLI, Args: []string{"redact", p}, Dir: dir}
+			if via == "stdin" {
+				run = CLIRun{Bin: c.CLI, Args: []string{"redact"}, Dir: dir, StdinMode: "pipe", Stdin: []byte(text)}
+			}
+			res, err := runCLI(run)
+			if err != nil {
+				continue
+			}
+			c.Count("cli_runs", 1)
+			b1 := 0
+			if len(sg) > 1 {
+				b1 = int(sg[1])
+			}
+			var e error
+			if res.Exit != 0 {
+				e = fmt.Errorf("exit status %d: %s", res.Exit, trunc(string(res.Stderr), 160))
+			}
+			judge(string(res.Stdout), e, nil, "the CLI ("+via+")", int(sg[0]), b1)
+		}
+	}
 }
 
 func ladderLine(depth int, kind, pos string) string {
